@@ -17,3 +17,4 @@ CONFIG = dict(
     trusted=Q.TRUSTED,
 )
 native_replay = Q.native_replay_q
+extra = Q.conformance
